@@ -444,11 +444,58 @@ fn screen(text: &str) -> Option<(u64, u64, u64)> {
             _ => None,
         }
     }
+    /// total number of addresses all expansions of the document materialise (saturating)
+    fn total(y: &Yaml, top: bool) -> u64 {
+        match y {
+            Yaml::Array(a) => a.iter().map(|x| total(x, false)).fold(0u64, |a, b| a.saturating_add(b)),
+            Yaml::Hash(h) => {
+                let mut sum = 0u64;
+                for (k, v) in h {
+                    let here = match (k.as_str(), v) {
+                        (Some("apply-subnet"), Yaml::String(st)) => len_of(st).filter(|l| *l <= 32).map(|l| 1u64 << (32 - l)).unwrap_or(0),
+                        (Some("addresses"), Yaml::Array(a)) if top => a
+                            .iter()
+                            .filter_map(|x| x.as_str().and_then(len_of))
+                            .filter(|l| *l <= 32)
+                            .map(|l| 1u64 << (32 - l))
+                            .fold(0u64, |a, b| a.saturating_add(b)),
+                        (Some("apply-range"), Yaml::Hash(rh)) => {
+                            let get = |name: &str| -> Option<u32> {
+                                let mut last = None;
+                                for (rk, rv) in rh {
+                                    if rk.as_str() == Some(name) {
+                                        last = rv.as_str().and_then(|x| if x == "$self4" { Some(0) } else { x.parse::<std::net::Ipv4Addr>().ok().map(u32::from) });
+                                    }
+                                }
+                                last
+                            };
+                            match (get("start"), get("end")) {
+                                (Some(a), Some(b)) if b >= a => (b - a) as u64 + 1,
+                                _ => 0,
+                            }
+                        }
+                        _ => 0,
+                    };
+                    sum = sum.saturating_add(here).saturating_add(total(v, false));
+                }
+                sum
+            }
+            _ => 0,
+        }
+    }
     let docs = yaml_rust::YamlLoader::load_from_str(text).ok()?;
     if docs.len() != 1 {
         return None;
     }
-    walk(&docs[0], true)
+    if let Some(r) = walk(&docs[0], true) {
+        return Some(r);
+    }
+    // many moderate expansions in one document (a list of 300 /16s): 4 = the sum of all of them
+    let sum = total(&docs[0], true);
+    if sum > (1 << 17) {
+        return Some((4, sum.min(1 << 40), 0));
+    }
+    None
 }
 
 fn doc_case(kind: u64, text: &str, stats: &mut Stats, what: &str) -> Toks {
